@@ -31,6 +31,23 @@ Section Same.
   Qed.
 End Same.
 
+(** * Sorting functions *)
+
+(** what the theorems need of the function that sorts a bucket: it returns a
+    metric-sorted permutation of its argument (sort.Slice with the less
+    function "Metric <" is such a function, stable or not) *)
+Definition sorter_ok (srt : sorter) : Prop :=
+  forall (D : Type) (l : list (entry D)), Permutation (srt D l) l /\ msorted (srt D l).
+
+Lemma sorter_ok_meaning : forall srt : sorter,
+  sorter_ok srt <->
+  forall (D : Type) (l : list (entry D)),
+    Permutation (srt D l) l /\ Sorted.StronglySorted (fun x y => e_metric x <= e_metric y) (srt D l).
+Proof. intros. reflexivity. Qed.
+
+Lemma isort_ok : sorter_ok (@isort).
+Proof. intros D l. split; [apply isort_perm|apply isort_sorted]. Qed.
+
 (** * Key equalities *)
 Lemma str_eqb_spec : forall a b : str, str_eqb a b = true <-> a = b.
 Proof.
@@ -49,16 +66,6 @@ Qed.
 
 Lemma Neqb_spec : forall a b : N, N.eqb a b = true <-> a = b.
 Proof. apply N.eqb_eq. Qed.
-
-(** first instances (bucket level) *)
-Lemma bucket_head_lowest : forall (r : entry prefix) b b' x y,
-  slots_unique same_origin b ->
-  bucket_add same_origin r b = Some (x :: b') -> In y (x :: b') -> e_metric x <= e_metric y.
-Proof.
-  intros r b b' x y Hu H Hy.
-  destruct (bucket_add_inv same_origin so_sym so_trans _ _ _ Hu H) as (Hs & _).
-  eapply msorted_head_min; eauto.
-Qed.
 
 Lemma fwd_lookup_table : forall (t : ftable) k,
   table_inv same_origin (fun _ _ => True) t ->
@@ -211,6 +218,10 @@ End Cidr.
 
 Section Ops.
   Variable local : N.
+  Variable srt : sorter.
+  Hypothesis srt_ok : sorter_ok srt.
+  Notation sp := (fun l => proj1 (srt_ok _ l)).
+  Notation ss := (fun l => proj2 (srt_ok _ l)).
 
   Notation cinv := (cinv local).
   Notation Pc := (Pc local).
@@ -243,7 +254,7 @@ Section Ops.
 
   (** ** CIDR *)
   Lemma cidr_add_ok : forall now t raw nh o m s path t' ok, cinv t ->
-    cidr_add local now t raw nh o m s path = (t', ok) -> cinv t' /\ cgrow t t'.
+    cidr_add srt local now t raw nh o m s path = (t', ok) -> cinv t' /\ cgrow t t'.
   Proof.
     unfold cidr_add. intros now t raw nh o m s path t' ok Hinv H.
     assert (Hrefl : cinv t /\ cgrow t t).
@@ -251,9 +262,9 @@ Section Ops.
     destruct (canon raw) as [p|] eqn:Ec; [|inversion H; subst; exact Hrefl].
     destruct (path_has local path) eqn:Ep; [inversion H; subst; exact Hrefl|].
     split.
-    - eapply (tadd_inv prefix_eqb prefix_eqb_spec same_origin so_sym so_trans Pc); eauto.
+    - eapply (tadd_inv prefix_eqb prefix_eqb_spec same_origin so_sym so_trans (srt _) sp ss Pc); eauto.
       split; [reflexivity|]. split; [eapply canon_wf; eauto|]. simpl. now apply path_has_false.
-    - eapply (tadd_grow prefix_eqb prefix_eqb_spec same_origin so_refl so_sym so_trans Pc); eauto.
+    - eapply (tadd_grow prefix_eqb prefix_eqb_spec same_origin so_refl so_sym so_trans (srt _) sp Pc); eauto.
   Qed.
 
   Lemma cidr_remove_ok : forall t raw o t' ok, cinv t ->
@@ -268,13 +279,13 @@ Section Ops.
   Qed.
 
   Lemma adv_cidr_ok : forall now peer origin seq path ents t t' c, cinv t ->
-    adv_cidr local now t peer origin seq path ents = (t', c) -> cinv t' /\ cgrow t t'.
+    adv_cidr local srt now t peer origin seq path ents = (t', c) -> cinv t' /\ cgrow t t'.
   Proof.
     induction ents as [|[n metric] ents IH]; simpl; intros t t' c Hinv H.
     - inversion H; subst. split; [assumption|].
       apply (grow_refl prefix_eqb prefix_eqb_spec same_origin so_refl so_sym Pc); assumption.
-    - destruct (cidr_add local now t n peer origin (u16 (metric + 1)) seq path) as [t1 ok] eqn:E1.
-      destruct (adv_cidr local now t1 peer origin seq path ents) as [t2 c2] eqn:E2.
+    - destruct (cidr_add srt local now t n peer origin (u16 (metric + 1)) seq path) as [t1 ok] eqn:E1.
+      destruct (adv_cidr local srt now t1 peer origin seq path ents) as [t2 c2] eqn:E2.
       inversion H; subst.
       destruct (cidr_add_ok _ _ _ _ _ _ _ _ _ _ Hinv E1) as [I1 G1].
       destruct (IH _ _ _ I1 E2) as [I2 G2].
@@ -296,7 +307,7 @@ Section Ops.
 
   (** ** Domain *)
   Lemma domain_add_ok : forall now e w pat nh o m s path e' w' ok, deinv e -> dwinv w ->
-    domain_add local now e w pat nh o m s path = (e', w', ok) ->
+    domain_add srt local now e w pat nh o m s path = (e', w', ok) ->
     deinv e' /\ dwinv w' /\ dgrow e e' /\ dgrow w w'.
   Proof.
     unfold domain_add. intros now e w pat nh o m s path e' w' ok He Hw H.
@@ -308,16 +319,16 @@ Section Ops.
     apply path_has_false in Ep.
     destruct (parse_pattern pat) as [wd base] eqn:Epp.
     destruct wd.
-    - destruct (tadd str_eqb same_origin (lower base) (mkE o nh m s path now (mkDR pat true base)) w) as [t ok'] eqn:Et.
+    - destruct (tadd str_eqb same_origin (srt drec) (lower base) (mkE o nh m s path now (mkDR pat true base)) w) as [t ok'] eqn:Et.
       inversion H; subst. split; [assumption|]. split; [|split; [assumption|]].
-      + eapply (tadd_inv str_eqb str_eqb_spec same_origin so_sym so_trans Pdw); eauto.
+      + eapply (tadd_inv str_eqb str_eqb_spec same_origin so_sym so_trans (srt _) sp ss Pdw); eauto.
         repeat split; simpl; auto.
-      + eapply (tadd_grow str_eqb str_eqb_spec same_origin so_refl so_sym so_trans Pdw); eauto.
-    - destruct (tadd str_eqb same_origin (lower pat) (mkE o nh m s path now (mkDR pat false base)) e) as [t ok'] eqn:Et.
+      + eapply (tadd_grow str_eqb str_eqb_spec same_origin so_refl so_sym so_trans (srt _) sp Pdw); eauto.
+    - destruct (tadd str_eqb same_origin (srt drec) (lower pat) (mkE o nh m s path now (mkDR pat false base)) e) as [t ok'] eqn:Et.
       inversion H; subst. split; [|split; [assumption|split; [|assumption]]].
-      + eapply (tadd_inv str_eqb str_eqb_spec same_origin so_sym so_trans Pde); eauto.
+      + eapply (tadd_inv str_eqb str_eqb_spec same_origin so_sym so_trans (srt _) sp ss Pde); eauto.
         repeat split; simpl; auto.
-      + eapply (tadd_grow str_eqb str_eqb_spec same_origin so_refl so_sym so_trans Pde); eauto.
+      + eapply (tadd_grow str_eqb str_eqb_spec same_origin so_refl so_sym so_trans (srt _) sp Pde); eauto.
   Qed.
 
   Lemma domain_remove_ok : forall e w pat o e' w' ok, deinv e -> dwinv w ->
@@ -340,15 +351,15 @@ Section Ops.
   Qed.
 
   Lemma adv_dom_ok : forall now peer origin seq path ents e w e' w' c, deinv e -> dwinv w ->
-    adv_dom local now e w peer origin seq path ents = (e', w', c) ->
+    adv_dom local srt now e w peer origin seq path ents = (e', w', c) ->
     deinv e' /\ dwinv w' /\ dgrow e e' /\ dgrow w w'.
   Proof.
     induction ents as [|[metric pat] ents IH]; simpl; intros e w e' w' c He Hw H.
     - inversion H; subst. split; [assumption|]. split; [assumption|]. split.
       + apply (grow_refl str_eqb str_eqb_spec same_origin so_refl so_sym Pde); assumption.
       + apply (grow_refl str_eqb str_eqb_spec same_origin so_refl so_sym Pdw); assumption.
-    - destruct (domain_add local now e w pat peer origin (u16 (metric + 1)) seq path) as [[e1 w1] ok] eqn:E1.
-      destruct (adv_dom local now e1 w1 peer origin seq path ents) as [[e2 w2] c2] eqn:E2.
+    - destruct (domain_add srt local now e w pat peer origin (u16 (metric + 1)) seq path) as [[e1 w1] ok] eqn:E1.
+      destruct (adv_dom local srt now e1 w1 peer origin seq path ents) as [[e2 w2] c2] eqn:E2.
       inversion H; subst.
       destruct (domain_add_ok _ _ _ _ _ _ _ _ _ _ _ _ He Hw E1) as (I1 & J1 & G1 & K1).
       destruct (IH _ _ _ _ _ I1 J1 E2) as (I2 & J2 & G2 & K2).
@@ -358,7 +369,7 @@ Section Ops.
   Qed.
   (** ** Forward and agent tables *)
   Lemma fwd_add_ok : forall now t key target nh o m s path t' ok, finv t ->
-    fwd_add local now t key target nh o m s path = (t', ok) -> finv t' /\ fgrow t t'.
+    fwd_add srt local now t key target nh o m s path = (t', ok) -> finv t' /\ fgrow t t'.
   Proof.
     unfold fwd_add. intros now t key target nh o m s path t' ok Hinv H.
     assert (Hrefl : finv t /\ fgrow t t).
@@ -366,9 +377,9 @@ Section Ops.
     destruct key as [|c key0]; [inversion H; subst; exact Hrefl|].
     destruct (path_has local path) eqn:Ep; [inversion H; subst; exact Hrefl|].
     split.
-    - eapply (tadd_inv str_eqb str_eqb_spec same_origin so_sym so_trans Pf); eauto.
+    - eapply (tadd_inv str_eqb str_eqb_spec same_origin so_sym so_trans (srt _) sp ss Pf); eauto.
       unfold Pf. simpl. now apply path_has_false.
-    - eapply (tadd_grow str_eqb str_eqb_spec same_origin so_refl so_sym so_trans Pf); eauto.
+    - eapply (tadd_grow str_eqb str_eqb_spec same_origin so_refl so_sym so_trans (srt _) sp Pf); eauto.
   Qed.
 
   Lemma fwd_remove_ok : forall t key o t' ok, finv t ->
@@ -382,13 +393,13 @@ Section Ops.
   Qed.
 
   Lemma adv_fwd_ok : forall now peer origin seq path ents t t' c, finv t ->
-    adv_fwd local now t peer origin seq path ents = (t', c) -> finv t' /\ fgrow t t'.
+    adv_fwd local srt now t peer origin seq path ents = (t', c) -> finv t' /\ fgrow t t'.
   Proof.
     induction ents as [|[[metric key] target] ents IH]; simpl; intros t t' c Hinv H.
     - inversion H; subst. split; [assumption|].
       apply (grow_refl str_eqb str_eqb_spec same_origin so_refl so_sym Pf); assumption.
-    - destruct (fwd_add local now t key target peer origin (u16 (metric + 1)) seq path) as [t1 ok] eqn:E1.
-      destruct (adv_fwd local now t1 peer origin seq path ents) as [t2 c2] eqn:E2.
+    - destruct (fwd_add srt local now t key target peer origin (u16 (metric + 1)) seq path) as [t1 ok] eqn:E1.
+      destruct (adv_fwd local srt now t1 peer origin seq path ents) as [t2 c2] eqn:E2.
       inversion H; subst.
       destruct (fwd_add_ok _ _ _ _ _ _ _ _ _ _ _ Hinv E1) as [I1 G1].
       destruct (IH _ _ _ I1 E2) as [I2 G2].
@@ -396,16 +407,16 @@ Section Ops.
   Qed.
 
   Lemma agent_add_ok : forall now t agent nh o m s path t' ok, ainv t ->
-    agent_add local now t agent nh o m s path = (t', ok) -> ainv t' /\ agrow t t'.
+    agent_add srt local now t agent nh o m s path = (t', ok) -> ainv t' /\ agrow t t'.
   Proof.
     unfold agent_add. intros now t agent nh o m s path t' ok Hinv H.
     destruct (path_has local path) eqn:Ep.
     - inversion H; subst. split; [assumption|].
       apply (grow_refl N.eqb Neqb_spec same_origin_nexthop son_refl son_sym Pa); assumption.
     - split.
-      + eapply (tadd_inv N.eqb Neqb_spec same_origin_nexthop son_sym son_trans Pa); eauto.
+      + eapply (tadd_inv N.eqb Neqb_spec same_origin_nexthop son_sym son_trans (srt _) sp ss Pa); eauto.
         unfold Pa. simpl. now apply path_has_false.
-      + eapply (tadd_grow N.eqb Neqb_spec same_origin_nexthop son_refl son_sym son_trans Pa); eauto.
+      + eapply (tadd_grow N.eqb Neqb_spec same_origin_nexthop son_refl son_sym son_trans (srt _) sp Pa); eauto.
   Qed.
 
   Lemma agent_remove_ok : forall t agent o t' ok, ainv t ->
@@ -433,7 +444,7 @@ Section Ops.
     chg str_eqb same_origin (m_fwd m) (m_fwd m') /\
     chg N.eqb same_origin_nexthop (m_agent m) (m_agent m').
 
-  Definition next (m : mgr) (o : op) : mgr := fst (fst (step local m o)).
+  Definition next (m : mgr) (o : op) : mgr := fst (fst (step local srt m o)).
 
   Lemma chg_refl : forall {K D} (keqb : K -> K -> bool) (same : entry D -> entry D -> bool) t, chg keqb same t t.
   Proof. intros. right. apply shrink_refl. Qed.
@@ -475,7 +486,7 @@ Section Ops.
     intros m o (Hc & Hde & Hdw & Hf & Ha). unfold next, minv, mchg.
     destruct o; simpl.
     - (* OAdv *)
-      destruct (adv_cidr local (m_now m) (m_cidr m) peer origin seq path ents) as [t c] eqn:E.
+      destruct (adv_cidr local srt (m_now m) (m_cidr m) peer origin seq path ents) as [t c] eqn:E.
       destruct (adv_cidr_ok _ _ _ _ _ _ _ _ _ Hc E) as [I G]. simpl. same_tables. now left.
     - (* OWd *)
       destruct (wd_cidr (m_cidr m) origin ents) as [t c] eqn:E.
@@ -486,7 +497,7 @@ Section Ops.
       destruct (filter_ok_c (keep_fresh local (m_now m) maxage) _ Hc) as [I G]. same_tables. now right.
     - (* OTick *) same_tables.
     - (* OAddLocal *)
-      destruct (cidr_add local (m_now m) (m_cidr m) n local local metric (m_seq m + 1) []) as [t ok] eqn:E.
+      destruct (cidr_add srt local (m_now m) (m_cidr m) n local local metric (m_seq m + 1) []) as [t ok] eqn:E.
       destruct (cidr_add_ok _ _ _ _ _ _ _ _ _ _ Hc E) as [I G]. simpl. same_tables. now left.
     - (* ORmLocal *)
       destruct (mem okey_eqb (strkey n) (m_local m)); [|simpl; same_tables].
@@ -494,20 +505,20 @@ Section Ops.
       destruct (cidr_remove_ok _ _ _ _ _ Hc E) as [I G]. simpl. same_tables. now right.
     - (* OAddDyn *)
       destruct (mem okey_eqb (strkey n) (m_local m) && negb (mem okey_eqb (strkey n) (m_dyn m))); [simpl; same_tables|].
-      destruct (cidr_add local (m_now m) (m_cidr m) n local local metric (m_seq m + 1) []) as [t ok] eqn:E.
+      destruct (cidr_add srt local (m_now m) (m_cidr m) n local local metric (m_seq m + 1) []) as [t ok] eqn:E.
       destruct (cidr_add_ok _ _ _ _ _ _ _ _ _ _ Hc E) as [I G]. simpl. same_tables. now left.
     - (* ORmDyn *)
       destruct (mem okey_eqb (strkey n) (m_dyn m)); [|simpl; same_tables].
       destruct (cidr_remove (m_cidr m) n local) as [t ok] eqn:E.
       destruct (cidr_remove_ok _ _ _ _ _ Hc E) as [I G]. simpl. same_tables. now right.
     - (* OTAdd *)
-      destruct (cidr_add local (m_now m) (m_cidr m) n nexthop origin metric seq path) as [t ok] eqn:E.
+      destruct (cidr_add srt local (m_now m) (m_cidr m) n nexthop origin metric seq path) as [t ok] eqn:E.
       destruct (cidr_add_ok _ _ _ _ _ _ _ _ _ _ Hc E) as [I G]. simpl. same_tables. now left.
     - (* OTRm *)
       destruct (cidr_remove (m_cidr m) n origin) as [t ok] eqn:E.
       destruct (cidr_remove_ok _ _ _ _ _ Hc E) as [I G]. simpl. same_tables. now right.
     - (* ODAdv *)
-      destruct (adv_dom local (m_now m) (m_dexact m) (m_dwild m) peer origin seq path ents) as [[e w] c] eqn:E.
+      destruct (adv_dom local srt (m_now m) (m_dexact m) (m_dwild m) peer origin seq path ents) as [[e w] c] eqn:E.
       destruct (adv_dom_ok _ _ _ _ _ _ _ _ _ _ _ Hde Hdw E) as (I & J & G & K). simpl. same_tables; now left.
     - (* ODDisc *)
       destruct (filter_ok_de (keep_peer peer) _ Hde) as [I G].
@@ -517,7 +528,7 @@ Section Ops.
       destruct (filter_ok_dw (keep_fresh local (m_now m) maxage) _ Hdw) as [J K]. same_tables; now right.
     - (* ODAddLocal *)
       destruct (is_nil pat || negb (valid_pattern pat)); [simpl; same_tables|].
-      destruct (domain_add local (m_now m) (m_dexact m) (m_dwild m) pat local local metric (m_seq m + 1) []) as [[e w] ok] eqn:E.
+      destruct (domain_add srt local (m_now m) (m_dexact m) (m_dwild m) pat local local metric (m_seq m + 1) []) as [[e w] ok] eqn:E.
       destruct (domain_add_ok _ _ _ _ _ _ _ _ _ _ _ _ Hde Hdw E) as (I & J & G & K). simpl. same_tables; now left.
     - (* ODRmLocal *)
       destruct (is_nil pat || negb (mem str_eqb pat (m_ldom m))); [simpl; same_tables|].
@@ -527,7 +538,7 @@ Section Ops.
       destruct (domain_remove (m_dexact m) (m_dwild m) pat origin) as [[e w] ok] eqn:E.
       destruct (domain_remove_ok _ _ _ _ _ _ _ Hde Hdw E) as (I & J & G & K). simpl. same_tables; now right.
     - (* OFAdv *)
-      destruct (adv_fwd local (m_now m) (m_fwd m) peer origin seq path ents) as [t c] eqn:E.
+      destruct (adv_fwd local srt (m_now m) (m_fwd m) peer origin seq path ents) as [t c] eqn:E.
       destruct (adv_fwd_ok _ _ _ _ _ _ _ _ _ Hf E) as [I G]. simpl. same_tables. now left.
     - (* OFDisc *)
       destruct (filter_ok_f (keep_peer peer) _ Hf) as [I G]. same_tables. now right.
@@ -535,7 +546,7 @@ Section Ops.
       destruct (filter_ok_f (keep_fresh local (m_now m) maxage) _ Hf) as [I G]. same_tables. now right.
     - (* OFAddLocal *)
       destruct (is_nil key || is_nil target); [simpl; same_tables|].
-      destruct (fwd_add local (m_now m) (m_fwd m) key target local local metric (m_seq m + 1) []) as [t ok] eqn:E.
+      destruct (fwd_add srt local (m_now m) (m_fwd m) key target local local metric (m_seq m + 1) []) as [t ok] eqn:E.
       destruct (fwd_add_ok _ _ _ _ _ _ _ _ _ _ _ Hf E) as [I G]. simpl. same_tables. now left.
     - (* OFRmLocal *)
       destruct (is_nil key || negb (mem str_eqb key (m_lfwd m))); [simpl; same_tables|].
@@ -545,7 +556,7 @@ Section Ops.
       destruct (fwd_remove (m_fwd m) key origin) as [t ok] eqn:E.
       destruct (fwd_remove_ok _ _ _ _ _ Hf E) as [I G]. simpl. same_tables. now right.
     - (* OAAdv *)
-      destruct (agent_add local (m_now m) (m_agent m) agent peer origin metric seq path) as [t ok] eqn:E.
+      destruct (agent_add srt local (m_now m) (m_agent m) agent peer origin metric seq path) as [t ok] eqn:E.
       destruct (agent_add_ok _ _ _ _ _ _ _ _ _ _ Ha E) as [I G]. simpl. same_tables. now left.
     - (* OADisc *)
       destruct (filter_ok_a (keep_peer peer) _ Ha) as [I G]. same_tables. now right.
@@ -604,7 +615,9 @@ Qed.
 
 Section C08.
   Variable local : N.
-  Notation run := (run local).
+  Variable srt : sorter.
+  Hypothesis srt_ok : sorter_ok srt.
+  Notation run := (run local srt).
 
   Lemma route_in_cstored : forall t x, cinv local t -> (route_in t x <-> cstored t x).
   Proof.
@@ -636,9 +649,9 @@ Section C08.
   Lemma lpm_over_histories : forall (ops : list op) (is16 a : N),
     let m := run ops in
     match addr_norm is16 a with
-    | None => snd (step local m (OLookup is16 a)) = FNone
+    | None => snd (step local srt m (OLookup is16 a)) = FNone
     | Some ad =>
-        match snd (step local m (OLookup is16 a)) with
+        match snd (step local srt m (OLookup is16 a)) with
         | FNone => lpm_ok (m_cidr m) ad None
         | FCidr r => lpm_ok (m_cidr m) ad (Some r)
         | _ => False
@@ -647,7 +660,7 @@ Section C08.
   Proof.
     intros ops is16 a m. simpl.
     destruct (addr_norm is16 a) as [ad|]; [|reflexivity].
-    pose proof (lpm_ok_of_inv (m_cidr m) ad (proj1 (run_inv local ops))) as H.
+    pose proof (lpm_ok_of_inv (m_cidr m) ad (proj1 (run_inv local srt srt_ok ops))) as H.
     destruct (cidr_lookup (m_cidr m) ad); simpl; exact H.
   Qed.
 
@@ -655,7 +668,7 @@ Section C08.
   Lemma stored_canonical : forall ops x, route_in (m_cidr (run ops)) x -> wfp (e_data x).
   Proof.
     intros ops x (k & b & Hin & Hx).
-    destruct (proj1 (run_inv local ops)) as [_ Hb].
+    destruct (proj1 (run_inv local srt srt_ok ops)) as [_ Hb].
     destruct (Hb _ _ Hin) as (_ & _ & _ & HP). destruct (HP x Hx) as (-> & Hwf & _). exact Hwf.
   Qed.
 
@@ -704,12 +717,13 @@ End C08.
 (* ------------------------------------------------------------------ *)
 (** * The defect that was repaired (pre-fix model) and non-vacuity *)
 
-Lemma lookup_order_independent_hist : forall (local : N) (ops : list op) (t' : ctable) (ad : addr),
-  Permutation (m_cidr (run local ops)) t' ->
-  cidr_lookup t' ad = cidr_lookup (m_cidr (run local ops)) ad.
+Lemma lookup_order_independent_hist : forall (local : N) (srt : sorter), sorter_ok srt ->
+  forall (ops : list op) (t' : ctable) (ad : addr),
+  Permutation (m_cidr (run local srt ops)) t' ->
+  cidr_lookup t' ad = cidr_lookup (m_cidr (run local srt ops)) ad.
 Proof.
-  intros local ops t' ad H.
-  exact (lookup_order_independent local _ t' ad (proj1 (run_inv local ops)) H).
+  intros local srt srt_ok ops t' ad H.
+  exact (lookup_order_independent local _ t' ad (proj1 (run_inv local srt srt_ok ops)) H).
 Qed.
 
 (** 10.0.0.0/8 from origin 1 (metric 2) and the same /8 delivered as
@@ -779,15 +793,15 @@ Definition w_ops2 : list op :=
   [OAdv 1 1 1 [1] [(w_net8_mapped, 1)]; OAdv 2 2 1 [2] [(w_net16, 1)]].
 
 Lemma fixed_witness1 :
-  option_map (fun r => (e_data r, e_metric r)) (cidr_lookup (m_cidr (run 0 w_ops1)) w_addr)
+  option_map (fun r => (e_data r, e_metric r)) (cidr_lookup (m_cidr (run 0 (@isort) w_ops1)) w_addr)
     = Some (mkP 4 167772160 8, 2) /\
-  length (m_cidr (run 0 w_ops1)) = 1%nat.
+  length (m_cidr (run 0 (@isort) w_ops1)) = 1%nat.
 Proof. split; vm_compute; reflexivity. Qed.
 
 Lemma fixed_witness2 :
-  option_map (fun r => (e_data r, e_metric r)) (cidr_lookup (m_cidr (run 0 w_ops2)) w_addr2)
+  option_map (fun r => (e_data r, e_metric r)) (cidr_lookup (m_cidr (run 0 (@isort) w_ops2)) w_addr2)
     = Some (mkP 4 167837696 16, 2) /\
-  cidr_lookup (m_cidr (run 0 w_ops2)) (6, 1) = None.
+  cidr_lookup (m_cidr (run 0 (@isort) w_ops2)) (6, 1) = None.
 Proof. split; vm_compute; reflexivity. Qed.
 
 (* ------------------------------------------------------------------ *)
@@ -837,7 +851,9 @@ Qed.
 
 Section C09.
   Variable local : N.
-  Notation run := (run local).
+  Variable srt : sorter.
+  Hypothesis srt_ok : sorter_ok srt.
+  Notation run := (run local srt).
 
   (** x is an exact pattern for the (lower-cased) name d *)
   Definition exact_match (x : entry drec) (d : str) : Prop :=
@@ -939,14 +955,14 @@ Section C09.
 
   Lemma domain_over_histories : forall (ops : list op) (name : str),
     let m := run ops in
-    match snd (step local m (ODLookup name)) with
+    match snd (step local srt m (ODLookup name)) with
     | FNone => domain_ok m (lower name) None
     | FDom r => domain_ok m (lower name) (Some r)
     | _ => False
     end.
   Proof.
     intros ops name m. simpl.
-    pose proof (domain_lookup_ok m name (run_inv local ops)) as H.
+    pose proof (domain_lookup_ok m name (run_inv local srt srt_ok ops)) as H.
     destruct (domain_lookup (m_dexact m) (m_dwild m) name); simpl; exact H.
   Qed.
 
@@ -955,7 +971,7 @@ Section C09.
     parse_pattern (dr_pattern (e_data x)) = (dr_wild (e_data x), dr_base (e_data x)).
   Proof.
     intros ops x [(k & b & Hin & Hx)|(k & b & Hin & Hx)];
-      destruct (run_inv local ops) as (_ & [_ He] & [_ Hw] & _).
+      destruct (run_inv local srt srt_ok ops) as (_ & [_ He] & [_ Hw] & _).
     - destruct (He _ _ Hin) as (_ & _ & _ & HP). destruct (HP x Hx) as (-> & _ & Hpp & _). exact Hpp.
     - destruct (Hw _ _ Hin) as (_ & _ & _ & HP). destruct (HP x Hx) as (-> & _ & Hpp & _). exact Hpp.
   Qed.
@@ -969,35 +985,35 @@ Section C09.
 
   Lemma forward_over_histories : forall (ops : list op) (key : str),
     let m := run ops in
-    match snd (step local m (OFLookup key)) with
+    match snd (step local srt m (OFLookup key)) with
     | FNone => keyed_ok str_eqb (m_fwd m) key None
     | FFwd k r => k = key /\ keyed_ok str_eqb (m_fwd m) key (Some r)
     | _ => False
     end.
   Proof.
     intros ops key m. simpl.
-    destruct (run_inv local ops) as (_ & _ & _ & Hf & _).
+    destruct (run_inv local srt srt_ok ops) as (_ & _ & _ & Hf & _).
     pose proof (tlookup_spec str_eqb str_eqb_spec same_origin (Pf local) (m_fwd m) key Hf) as H.
     destruct (tlookup str_eqb key (m_fwd m)); simpl; [split; [reflexivity|exact H]|exact H].
   Qed.
 
   Lemma agent_over_histories : forall (ops : list op) (agent : N),
     let m := run ops in
-    match snd (step local m (OALookup agent)) with
+    match snd (step local srt m (OALookup agent)) with
     | FNone => keyed_ok N.eqb (m_agent m) agent None
     | FAgent k r => k = agent /\ keyed_ok N.eqb (m_agent m) agent (Some r)
     | _ => False
     end.
   Proof.
     intros ops agent m. simpl.
-    destruct (run_inv local ops) as (_ & _ & _ & _ & Ha).
+    destruct (run_inv local srt srt_ok ops) as (_ & _ & _ & _ & Ha).
     pose proof (tlookup_spec N.eqb Neqb_spec same_origin_nexthop (Pa local) (m_agent m) agent Ha) as H.
     destruct (tlookup N.eqb agent (m_agent m)); simpl; [split; [reflexivity|exact H]|exact H].
   Qed.
 
   (** lookups are case-insensitive: only the lower-cased name matters *)
   Lemma domain_case_insensitive : forall m n1 n2, lower n1 = lower n2 ->
-    step local m (ODLookup n1) = step local m (ODLookup n2).
+    step local srt m (ODLookup n1) = step local srt m (ODLookup n2).
   Proof. intros m n1 n2 H. simpl. unfold domain_lookup. now rewrite H. Qed.
 End C09.
 
@@ -1006,8 +1022,10 @@ End C09.
 
 Section C10.
   Variable local : N.
-  Notation run := (run local).
-  Notation next := (next local).
+  Variable srt : sorter.
+  Hypothesis srt_ok : sorter_ok srt.
+  Notation run := (run local srt).
+  Notation next := (next local srt).
 
   Lemma chg_rule1 : forall {K D} keqb (Hs : forall a b : K, keqb a b = true <-> a = b)
     (same : entry D -> entry D -> bool) (Hsym : forall x y, same x y = same y x) P (t t' : table K D),
@@ -1031,8 +1049,8 @@ Section C10.
   Lemma replace_rule_over_histories : forall (ops : list op) (o : op),
     all_rule1 (run ops) (next (run ops) o).
   Proof.
-    intros ops o. destruct (run_inv local ops) as (Hc & He & Hw & Hf & Ha).
-    destruct (step_ok local (run ops) o (run_inv local ops)) as [_ (Cc & Ce & Cw & Cf & Ca)].
+    intros ops o. destruct (run_inv local srt srt_ok ops) as (Hc & He & Hw & Hf & Ha).
+    destruct (step_ok local srt srt_ok (run ops) o (run_inv local srt srt_ok ops)) as [_ (Cc & Ce & Cw & Cf & Ca)].
     unfold all_rule1. split; [|split; [|split; [|split]]].
     - eapply (chg_rule1 prefix_eqb prefix_eqb_spec same_origin so_sym); eauto.
     - eapply (chg_rule1 str_eqb str_eqb_spec same_origin so_sym); eauto.
@@ -1058,7 +1076,7 @@ Section C10.
     (forall k x y, stored N.eqb (m_agent m) k x -> stored N.eqb (m_agent m) k y ->
                    e_origin x = e_origin y -> e_nexthop x = e_nexthop y -> x = y).
   Proof.
-    intros ops m. destruct (run_inv local ops) as (Hc & He & Hw & Hf & Ha). fold m in Hc, He, Hw, Hf, Ha.
+    intros ops m. destruct (run_inv local srt srt_ok ops) as (Hc & He & Hw & Hf & Ha). fold m in Hc, He, Hw, Hf, Ha.
     split; [|split; [|split; [|split]]].
     - intros k x y Hx Hy Ho.
       destruct (tget_ok prefix_eqb prefix_eqb_spec same_origin _ _ k Hc) as (_ & Hu & _).
@@ -1087,7 +1105,7 @@ Section C10.
     (forall x, route_in (m_fwd m) x -> ~ In local (e_path x)) /\
     (forall x, route_in (m_agent m) x -> ~ In local (e_path x)).
   Proof.
-    intros ops m. destruct (run_inv local ops) as ([_ Hc] & [_ He] & [_ Hw] & [_ Hf] & [_ Ha]).
+    intros ops m. destruct (run_inv local srt srt_ok ops) as ([_ Hc] & [_ He] & [_ Hw] & [_ Hf] & [_ Ha]).
     fold m in Hc, He, Hw, Hf, Ha.
     split; [|split; [|split; [|split]]]; intros x (k & b & Hin & Hx).
     - destruct (Hc _ _ Hin) as (_ & _ & _ & HP). now destruct (HP x Hx) as (_ & _ & ?).
@@ -1110,7 +1128,7 @@ Section C10.
     (forall f, filtered str_eqb f (m_fwd m) (tfilter f (m_fwd m))) /\
     (forall f, filtered N.eqb f (m_agent m) (tfilter f (m_agent m))).
   Proof.
-    intros ops m. destruct (run_inv local ops) as ([Hc _] & [He _] & [Hw _] & [Hf _] & [Ha _]).
+    intros ops m. destruct (run_inv local srt srt_ok ops) as ([Hc _] & [He _] & [Hw _] & [Hf _] & [Ha _]).
     fold m in Hc, He, Hw, Hf, Ha.
     split; [|split; [|split; [|split]]]; intros f k.
     - now apply (tget_tfilter prefix_eqb prefix_eqb_spec).
@@ -1218,20 +1236,20 @@ Proof. intros. reflexivity. Qed.
 
 (** the agent's disconnect handler calls the four disconnect operations in a
     row: afterwards every table has lost exactly the peer's routes *)
-Lemma full_disconnect : forall (local : N) (ops : list op) (p : N),
-  let m := run local ops in
-  let m' := run local (ops ++ [ODisc p; ODDisc p; OFDisc p; OADisc p]) in
+Lemma full_disconnect : forall (local : N) (srt : sorter), sorter_ok srt -> forall (ops : list op) (p : N),
+  let m := run local srt ops in
+  let m' := run local srt (ops ++ [ODisc p; ODDisc p; OFDisc p; OADisc p]) in
   filtered prefix_eqb (keep_peer p) (m_cidr m) (m_cidr m') /\
   filtered str_eqb (keep_peer p) (m_dexact m) (m_dexact m') /\
   filtered str_eqb (keep_peer p) (m_dwild m) (m_dwild m') /\
   filtered str_eqb (keep_peer p) (m_fwd m) (m_fwd m') /\
   filtered N.eqb (keep_peer p) (m_agent m) (m_agent m').
 Proof.
-  intros local ops p m m'.
-  pose proof (disconnect_over_histories local ops p) as (H1 & _).
-  pose proof (disconnect_over_histories local (ops ++ [ODisc p]) p) as (_ & H2 & _).
-  pose proof (disconnect_over_histories local ((ops ++ [ODisc p]) ++ [ODDisc p]) p) as (_ & _ & H3 & _).
-  pose proof (disconnect_over_histories local (((ops ++ [ODisc p]) ++ [ODDisc p]) ++ [OFDisc p]) p) as (_ & _ & _ & H4).
+  intros local srt srt_ok ops p m m'.
+  pose proof (disconnect_over_histories local srt srt_ok ops p) as (H1 & _).
+  pose proof (disconnect_over_histories local srt srt_ok (ops ++ [ODisc p]) p) as (_ & H2 & _).
+  pose proof (disconnect_over_histories local srt srt_ok ((ops ++ [ODisc p]) ++ [ODDisc p]) p) as (_ & _ & H3 & _).
+  pose proof (disconnect_over_histories local srt srt_ok (((ops ++ [ODisc p]) ++ [ODDisc p]) ++ [OFDisc p]) p) as (_ & _ & _ & H4).
   cbv zeta in H1, H2, H3, H4.
   rewrite <- !run_app in H1, H2, H3, H4.
   replace ((((ops ++ [ODisc p]) ++ [ODDisc p]) ++ [OFDisc p]) ++ [OADisc p])
